@@ -39,12 +39,12 @@ func NewServerTLSConfig(ctx context.Context, certs []tls.Certificate, cquery cty
 
 				// 1. CommonName in issuer and Subject must match and be as Bech32 format
 				if cert.Subject.CommonName != cert.Issuer.CommonName {
-					return errors.Wrap(err, "tls: invalid certificate's issuer common name")
+					return errors.New("tls: invalid certificate's issuer common name")
 				}
 
 				// 2. serial number must be in
 				if cert.SerialNumber == nil {
-					return errors.Wrap(err, "tls: invalid certificate serial number")
+					return errors.New("tls: invalid certificate serial number")
 				}
 
 				// 3. look up certificate on chain
